@@ -11,10 +11,10 @@ RULE = ("(a) Hypothesis-generated simple graphs without isolated vertices (union
         "relabelled ids, random edge insertion order/orientation) x m0 in 2..clique number+2 x scripted or seeded "
         "tie-breaks; (b) exhaustive: every graph of the networkx atlas without isolated vertices on <= 6 (quick) / <= 7 "
         "(thorough; 7-node graphs for m0<=3 only) nodes x m0 in 2..6, each with its complete tie-break decision tree when it has "
-        "<= 200 leaves, else 20 seeded schedules. Oracle: exact-cover + size + clique + working-graph-empty + intact "
+        "<= 200 leaves, else 20 seeded schedules. (c) fixed families: K8 next to the 16-cell, glued K_n, and 'necklace' graphs on exactly n vertices for every n in 8..70 and around 128 and 256. Oracle: exact-cover + size + clique + working-graph-empty + intact "
         "predicates. Non-trivial = some maximal clique larger than m0 shares an edge with another maximal clique, or "
         ">= 2 overlapping maximal cliques of size >= 3; distinct = canonical JSON")
-ASSUMPTIONS = ["each tie-break round removes at least one edge, so more than 50*|E|+100 RNG draws is reported as non-termination"]
+ASSUMPTIONS = ["vertex labels are totally ordered (the cover algorithm sorts labels throughout; with partially ordered labels such as frozensets the pinned code itself returns double covers)", "each tie-break round removes at least one edge, so more than 50*|E|+100 RNG draws is reported as non-termination"]
 BUDGET = {"quick": (16, 200), "thorough": (16, 8000)}
 EXHAUSTIVE = True
 EXHAUSTIVE_NOTE = "family (b) of RULE: all atlas graphs in the stated size range x m0, complete tie-break trees up to 200 leaves"
@@ -90,6 +90,9 @@ def graph_case(draw, tier):
          "m0": m0, "rng": r}
     if draw(st.integers(0, 3)) == 3:
         c["bulk"] = draw(st.sampled_from([1, 2, 3, 5]))
+        # the edges may be handed over as any iterable: a list, or a one-shot iterator (zip, generator)
+        c["bulk_iter"] = draw(st.sampled_from(["list", "list", "iter", "zip", "gen"]))
+
     if draw(st.integers(0, 2)) == 2:
         c["prelude"] = [[draw(st.sampled_from(["lmc", "cover"])), draw(st.integers(2, 7))]
                         for _ in range(draw(st.integers(1, 2)))]
@@ -146,15 +149,17 @@ def enumerated(tier, seed):
     return out
 
 
-def run_once(edges, m0, prelude=(), bulk=0):
+def run_once(edges, m0, prelude=(), bulk=0, bulk_iter="list"):
     from gcmpy import EECC
     net = EECC()
     if bulk:
         # the whole list in one add_edges_from call, some edges listed a second time in the other orientation (the same
         # simple graph)
         lst = [(a, b) for a, b in edges]
-        lst += [(b, a) for i, (a, b) in enumerate(edges) if i % bulk == 0]
-        net.add_edges_from(lst)
+        lst += [(b, a) for i, (a, b) in enumerate(edges) if i % bulk == 0 and i > 0]
+        feed = {"list": lambda: lst, "iter": lambda: iter(lst), "zip": lambda: zip([a for a, _ in lst], [b for _, b in lst]),
+                "gen": lambda: ((a, b) for a, b in lst)}[bulk_iter or "list"]()
+        net.add_edges_from(feed)
     else:
         for a, b in edges:
             net.add_edge((a, b))
@@ -213,7 +218,8 @@ def check(case):
     import networkx as nx
     edges, m0 = case["edges"], case["m0"]
     nE = len({frozenset(e) for e in edges})
-    budget = 50 * nE + 100
+    # at most one round per edge; a tie-break may spend one draw per tied candidate (shuffle instead of choice)
+    budget = 100 + 50 * nE + 2 * nE * nE
     r = case["rng"]
     classes = set()
     maxc = None
@@ -221,7 +227,7 @@ def check(case):
         holder = {}
 
         def outcome():
-            net, cover = call("get_EECC", run_once, edges, m0, case.get("prelude") or (), case.get("bulk", 0))
+            net, cover = call("get_EECC", run_once, edges, m0, case.get("prelude") or (), case.get("bulk", 0), case.get("bulk_iter"))
             holder["maxc"] = validate(edges, m0, net, cover)
             return tuple(sorted(tuple(sorted(c)) for c in cover))
         try:
@@ -233,7 +239,7 @@ def check(case):
             for s in range(20):
                 with rng.scripted(ints=[], tail_seed=r["seed"] * 100 + s, budget=budget):
                     try:
-                        net, cover = call("get_EECC", run_once, edges, m0, case.get("prelude") or (), case.get("bulk", 0))
+                        net, cover = call("get_EECC", run_once, edges, m0, case.get("prelude") or (), case.get("bulk", 0), case.get("bulk_iter"))
                     except rng.Budget:
                         raise Violation("non-termination", f"more than {budget} tie-break draws for {nE} edges")
                 holder["maxc"] = validate(edges, m0, net, cover)
@@ -244,7 +250,7 @@ def check(case):
                else rng.scripted(ints=r["ints"], tail_seed=r.get("tail", 0), budget=budget))
         with ctx:
             try:
-                net, cover = call("get_EECC", run_once, edges, m0, case.get("prelude") or (), case.get("bulk", 0))
+                net, cover = call("get_EECC", run_once, edges, m0, case.get("prelude") or (), case.get("bulk", 0), case.get("bulk_iter"))
             except rng.Budget:
                 raise Violation("non-termination", f"more than {budget} tie-break draws for {nE} edges")
         maxc = validate(edges, m0, net, cover)
@@ -256,4 +262,7 @@ def check(case):
     classes.add("m0_below_clique_number" if m0 < omega else ("m0_at_clique_number" if m0 == omega else "m0_above_clique_number"))
     if case.get("prelude"):
         classes.add("object_reused_under_other_bound")
+    if case.get("bulk") and case.get("bulk_iter", "list") != "list":
+        classes.add("edges_from_one_shot_iterator")
+
     return {"nontrivial": big_shared or overlapping, "classes": sorted(classes), "notes": notes}
